@@ -80,6 +80,7 @@ type sim struct {
 	slow     map[[2]int]bool
 	values   map[uint64][]uint64 // height -> values seen
 	commits  map[uint64]In       // height -> a ProcessSync input made from a correct validator's commit
+	retired  map[int]bool        // machines that ran far ahead of the target height
 	start    uint64
 	label    string
 }
@@ -162,7 +163,7 @@ func genScenario(r *lib.RNG, thorough bool) *sim {
 			sc.Nodes = append(sc.Nodes, NodeSpec{Node: i, Height: start, VBase: uint64(400 * (i + 1)), VStep: 4})
 		}
 	}
-	s := &sim{r: r, sc: sc, pf: pf, slow: map[[2]int]bool{}, values: map[uint64][]uint64{}, commits: map[uint64]In{}, start: start, label: vs.name}
+	s := &sim{r: r, sc: sc, pf: pf, slow: map[[2]int]bool{}, values: map[uint64][]uint64{}, commits: map[uint64]In{}, retired: map[int]bool{}, start: start, label: vs.name}
 	for i := 0; i < n; i++ {
 		for j := 0; j < n; j++ {
 			if r.Intn(100) < pf.slowLinkP {
@@ -185,6 +186,9 @@ func (s *sim) addValue(h, v uint64) {
 // do delivers an input and turns the resulting actions into flights / pending timeouts; after a
 // commit the next height is started at once (driver.listen).
 func (s *sim) do(m int, in In) {
+	if s.retired[m] {
+		return
+	}
 	if in.Kind != "sync" && !in.Wal && s.r.Intn(100) < s.pf.walP {
 		in.Wal = true
 		if in.Kind == "start" {
@@ -221,8 +225,13 @@ func (s *sim) do(m int, in In) {
 			}
 		}
 	}
-	if commit && len(s.w.Viols) == 0 && len(s.sc.Events) < 20000 {
-		// (a violation ends the scenario; the cap stops a machine that commits on every start)
+	if commit && (len(s.sc.Events) >= 20000 || s.w.views[m].height > s.start+uint64(s.pf.heights)+2) {
+		// far above the scenario's target (e.g. the single validator of N=1 commits on every start):
+		// the validator is retired, nothing is delivered to it any more
+		s.retired[m] = true
+		return
+	}
+	if commit && len(s.w.Viols) == 0 {
 		s.do(m, In{Kind: "start", R: 0})
 	}
 }
@@ -261,7 +270,7 @@ func (s *sim) removeFlight(i int) {
 func (s *sim) fireTimeout() bool {
 	var ms []int
 	for m := range s.timeouts {
-		if len(s.timeouts[m]) > 0 {
+		if len(s.timeouts[m]) > 0 && !s.retired[m] {
 			ms = append(ms, m)
 		}
 	}
@@ -370,8 +379,8 @@ func (s *sim) byzAct() {
 }
 
 func (s *sim) done() bool {
-	for _, v := range s.w.views {
-		if v.height < s.start+uint64(s.pf.heights) {
+	for m, v := range s.w.views {
+		if v.height < s.start+uint64(s.pf.heights) && !s.retired[m] {
 			return false
 		}
 	}
